@@ -21,7 +21,7 @@ from menelaus.data_drift.kdq_tree import KdqTreeBatch, KdqTreeStreaming
 
 from mc import rng
 from mc.canon import canon
-from mc.explorer import System, Violation
+from mc.explorer import HarnessError, System, Violation
 from mc.numeric import close, diff_keys, lockstep
 from mc.observe import batch_obs, stream_obs
 from models.kdq import KdqBatchModel, KdqStreamModel, ShapeError, kl_counts
@@ -164,6 +164,131 @@ MENUS["sizes"] = [
 ]
 DF_COLS = ["y", "x", "w"]  # deliberately not in alphabetical order: positions, not labels, define the axes
 
+# round 4 ("the caller re-uses its containers") --------------------------------------------------------------------
+# Menus whose batches share ONE shape, so that a caller with one preallocated container per shape overwrites the
+# very object it passed earlier.  All values are small integers (exact in float64 / int64 containers alike).
+# "eq1d": four batches of 6 rows (spread / low / high / two clusters) + one of 4 rows (a second shape: its container
+# is a different object, the 6-row container stays untouched while it is used).
+MENUS["eq1d"] = [
+    [[0.0], [1.0], [2.0], [3.0], [4.0], [5.0]],
+    [[0.0], [0.0], [1.0], [1.0], [2.0], [5.0]],
+    [[5.0], [5.0], [5.0], [4.0], [5.0], [3.0]],
+    [[0.0], [0.0], [0.0], [5.0], [5.0], [5.0]],
+    [[0.0], [1.0], [4.0], [5.0]],
+]
+# "eq2d": five batches of 6 rows x 2 features
+MENUS["eq2d"] = [
+    [[0.0, 0.0], [1.0, 1.0], [2.0, 2.0], [3.0, 3.0], [0.0, 3.0], [3.0, 0.0]],
+    [[0.0, 0.0], [0.0, 1.0], [1.0, 0.0], [1.0, 1.0], [0.0, 0.0], [3.0, 3.0]],
+    [[3.0, 3.0], [3.0, 2.0], [2.0, 3.0], [3.0, 3.0], [2.0, 2.0], [3.0, 3.0]],
+    [[0.0, 3.0], [1.0, 2.0], [2.0, 1.0], [3.0, 0.0], [0.0, 0.0], [3.0, 3.0]],
+    [[0.0, 0.0], [0.0, 0.0], [0.0, 0.0], [1.0, 0.0], [0.0, 1.0], [3.0, 3.0]],
+]
+
+
+def _lattice(n, dim, kind):
+    """Deterministic batches of n rows for the larger-batch family (count_ubound 8, several points per leaf):
+    integer lattice points, "spread" over 0..15, "low" / "high" squeezed into one half, "ends" on {0, 1, 14, 15}.  No random numbers: value i of feature j is a fixed arithmetic pattern."""
+    rows = []
+    for i in range(n):
+        r = []
+        for j in range(dim):
+            v = (i * (5 + 2 * j) + 3 * j) % 16
+            if kind == "low":
+                v = v // 2
+            elif kind == "high":
+                v = 8 + v // 2
+            elif kind == "ends":
+                v = v // 4 if v < 8 else 14 + v % 2
+            r.append(float(v))
+        rows.append(r)
+    return rows
+
+
+# "big1d" / "big2d": five batches of 48 rows each (count_ubound 8 in the family that uses them)
+for _dim in (1, 2):
+    MENUS["big%dd" % _dim] = [_lattice(48, _dim, k) for k in ("spread", "low", "high", "ends")] + [
+        _lattice(48, _dim, "spread")[::-1]  # the spread batch in reverse row order: same leaf counts, other object content
+    ]
+
+REUSE_KINDS = ("nd2", "nd1", "series", "df")  # nd1 / series: one feature (batch), one row (streaming)
+_NP = {"f8": np.float64, "i8": np.int64}
+
+
+def buf_new(kind, dtype, shape, row):
+    """A caller-owned container of the given kind for values of the given 2-D shape, holding zeros.  ``row``: the 1-D
+    kinds hold one row of features (streaming sample); otherwise one column (single-feature batch)."""
+    z = np.zeros(shape, dtype=_NP[dtype])
+    flat = z[0] if row else z[:, 0]
+    if kind == "nd2":
+        return z
+    if kind == "nd1":
+        return flat.copy()
+    if kind == "series":
+        return pd.Series(flat.copy())
+    if kind == "df":
+        return pd.DataFrame(z, columns=DF_COLS[: shape[1]])
+    raise HarnessError("unknown reusable container %r" % (kind,))
+
+
+def buf_write(obj, kind, arr, row):
+    """Overwrite the caller-owned container IN PLACE with the values of ``arr`` (the object stays the same)."""
+    flat = arr[0] if row else arr[:, 0]
+    if kind == "nd2":
+        obj[...] = arr
+    elif kind == "nd1":
+        obj[...] = flat
+    elif kind == "series":
+        obj.iloc[:] = flat.astype(obj.dtype)
+    elif kind == "df":
+        obj.iloc[:, :] = arr.astype(obj.dtypes.iloc[0])
+    else:
+        raise HarnessError("unknown reusable container %r" % (kind,))
+
+
+def buf_read(obj, kind, row):
+    """The values the caller-owned container currently holds, as a 2-D float array."""
+    a = obj.to_numpy(dtype=float) if kind in ("series", "df") else np.array(obj, dtype=float)
+    if a.ndim == 1:
+        a = a.reshape(1, -1) if row else a.reshape(-1, 1)
+    return a
+
+
+def reused_container(cfg, state, role, rows, ctx, row):
+    """The caller keeps ONE container object per (role and) shape, refills it in place and passes the same object in
+    every call (cfg["reuse"] = kind of container; cfg["roles"] = "shared": update and set_reference batches of one
+    shape travel in the same object, "separate": one object per role and shape).  The containers live in
+    state["bufs"], so snapshots copy detector and containers together (a detector attribute that *is* the caller's
+    object stays the copied caller's object).  The model / oracle sees the values, never the object."""
+    kind, dtype = cfg["reuse"], cfg.get("reuse_dtype", "f8")
+    arr = np.array(rows, dtype=float)
+    key = "%s:%dx%d" % (role if cfg.get("roles", "shared") == "separate" else "any", arr.shape[0], arr.shape[1])
+    bufs = state["bufs"]
+    if key not in bufs:
+        bufs[key] = buf_new(kind, dtype, arr.shape, row)
+        ctx.count("reuse_containers_allocated")
+    else:
+        ctx.count("reuse_objects_passed_again")
+        if not np.array_equal(buf_read(bufs[key], kind, row), arr):
+            ctx.count("reuse_objects_overwritten_with_other_values")
+    obj = bufs[key]
+    buf_write(obj, kind, arr, row)
+    if not np.array_equal(buf_read(obj, kind, row), arr):
+        raise HarnessError("the reused %s (%s) does not hold the values written to it" % (kind, dtype))
+    if len(bufs) >= 2:
+        ctx.count("reuse_steps_with_two_or_more_containers_alive")
+    ctx.count("reuse_kind_%s_%s" % (kind, dtype))
+    if dtype == "i8":
+        ctx.count("integer_typed_samples")
+    if kind == "df":
+        ctx.count("dataframe_inputs")
+    return obj, key
+
+
+def bufs_key(state):
+    """Contents of the caller's containers, for the transposition key (equal detector + equal containers = equal futures)."""
+    return tuple((k, canon(v)) for k, v in sorted(state.get("bufs", {}).items()))
+
 
 def menu_dim(cfg):
     return len(MENUS[cfg["menu"]][0][0])
@@ -193,7 +318,11 @@ class BatchSys(System):
     def init(self, cfg):
         dim = menu_dim(cfg)
         kw = dict(alpha=cfg["alpha"], bootstrap_samples=cfg["B"], count_ubound=cfg["ub"])
-        return {"det": KdqTreeBatch(**kw), "model": KdqBatchModel(dim=dim, **kw), "nset": 0}
+        state = {"det": KdqTreeBatch(**kw), "model": KdqBatchModel(dim=dim, **kw), "nset": 0}
+        if cfg.get("reuse"):
+            state["bufs"] = {}  # the caller's containers (round 4), snapshotted together with the detector
+            state["drift_buf"] = None  # container (key) that carried the batch of the last drift
+        return state
 
     def alphabet(self, cfg, state, pos):
         evs = [{"op": "update", "b": i} for i in cfg.get("updates", range(5))]
@@ -202,12 +331,24 @@ class BatchSys(System):
         return evs
 
     def key(self, cfg, state, pos):
-        return (canon(state["det"]), state["model"].canon(), state["nset"])
+        return (canon(state["det"]), state["model"].canon(), state["nset"], bufs_key(state), state.get("drift_buf"))
 
     def step(self, cfg, state, ev, pos, ctx):
         det = state["det"]
         pts = MENUS[cfg["menu"]][ev["b"]]
-        X = encode(cfg, pts, pos, ctx) if ("container" in cfg or "int_when_integral" in cfg) else np.array(pts, dtype=float)
+        bkey = None
+        if cfg.get("reuse"):
+            X, bkey = reused_container(cfg, state, ev["op"], pts, ctx, row=False)
+            if state["model"].state == "drift" and state["drift_buf"] is not None and ev["op"] == "update":
+                # the reference of this update must be the batch that drifted; the container that carried it ...
+                if bkey != state["drift_buf"]:
+                    ctx.count("reuse_update_after_drift_in_another_container")  # ... still holds it
+                elif pts != [list(p) for p in state["model"].next_ref]:
+                    ctx.mark("reuse_update_after_drift_in_the_same_container_other_values")  # ... holds other values by now
+        elif "container" in cfg or "int_when_integral" in cfg:
+            X = encode(cfg, pts, pos, ctx)
+        else:
+            X = np.array(pts, dtype=float)
         seed = rng.seed_step(ctx.seed, cfg["id"], pos)
         try:
             if ev["op"] == "update":
@@ -264,6 +405,12 @@ class BatchSys(System):
             if state.get("last_op") == "set_reference":
                 ctx.count("set_reference_twice_in_a_row")
         state["last_op"] = ev["op"]
+        if cfg.get("reuse"):
+            if obs["state"] == "drift":
+                state["drift_buf"] = bkey
+                ctx.count("reuse_drifts")
+            else:
+                state["drift_buf"] = None
         if model.epochs > before.epochs and before.R is not None:
             a, b = before.R.tree.ref[""], model.R.tree.ref[""]
             if max(a, b) >= 4 * min(a, b):
@@ -297,13 +444,16 @@ class StreamSys(System):
             window_size=cfg["w"], persistence=cfg["persistence"], alpha=cfg["alpha"],
             bootstrap_samples=cfg["B"], count_ubound=cfg["ub"],
         )
-        return {"det": KdqTreeStreaming(**kw), "model": KdqStreamModel(dim=cfg.get("dim", 1), **kw)}
+        state = {"det": KdqTreeStreaming(**kw), "model": KdqStreamModel(dim=cfg.get("dim", 1), **kw)}
+        if cfg.get("reuse"):
+            state["bufs"] = {}  # the caller's one-sample container (round 4), snapshotted together with the detector
+        return state
 
     def alphabet(self, cfg, state, pos):
         return list(cfg["values"])
 
     def key(self, cfg, state, pos):
-        return (canon(state["det"]), state["model"].canon())
+        return (canon(state["det"]), state["model"].canon(), bufs_key(state))
 
     def step(self, cfg, state, ev, pos, ctx):
         det = state["det"]
@@ -314,7 +464,13 @@ class StreamSys(System):
             x = float(ev)
             row = (x,)
         seed = rng.seed_step(ctx.seed, cfg["id"], pos)
-        if "container" in cfg or len(row) > 1:
+        if cfg.get("reuse"):
+            if state["model"].R is None and state["model"].buf and state["model"].state != "drift":
+                # a reference window is being collected: its earlier samples travelled in the same container
+                if any(p != row for p in state["model"].buf):
+                    ctx.mark("reuse_reference_window_sample_overwritten_in_callers_container")
+            arr, _ = reused_container(cfg, state, "x", [list(row)], ctx, row=True)
+        elif "container" in cfg or len(row) > 1:
             arr = encode(cfg, [list(row)], pos, ctx)
         else:
             arr = np.array([[x]])
@@ -579,8 +735,69 @@ def _round3_tasks(tier):
     return out
 
 
+REUSE_BATCH = [
+    # id, menu, container, dtype, roles, alpha, count_ubound, depth (quick; thorough +1)
+    ("eq1d-nd2", "eq1d", "nd2", "f8", "shared", 0.6, 1, 4),
+    ("eq1d-nd2-sep", "eq1d", "nd2", "f8", "separate", 0.3, 1, 3),
+    ("eq1d-nd1", "eq1d", "nd1", "f8", "shared", 1, 1, 3),
+    ("eq1d-series", "eq1d", "series", "f8", "shared", 0.6, 2, 3),
+    ("eq1d-df", "eq1d", "df", "f8", "shared", 0.3, 1, 3),
+    ("eq1d-nd2-i8", "eq1d", "nd2", "i8", "shared", 0.6, 1, 3),
+    ("eq2d-nd2", "eq2d", "nd2", "f8", "shared", 0.6, 1, 3),
+    ("eq2d-df", "eq2d", "df", "f8", "shared", 0.3, 1, 4),
+    ("eq2d-nd2-sep", "eq2d", "nd2", "f8", "separate", 1, 2, 3),
+    ("eq2d-df-i8", "eq2d", "df", "i8", "separate", 0.6, 1, 3),
+    # larger batches (48 rows, several points per leaf)
+    ("big1d-nd1", "big1d", "nd1", "f8", "shared", 0.3, 8, 3),
+    ("big2d-nd2", "big2d", "nd2", "f8", "shared", 0.6, 8, 3),
+    ("big2d-df", "big2d", "df", "f8", "shared", 0.3, 8, 3),
+]
+REUSE_STREAM = [
+    # id, container, dtype, window_size, persistence, alpha, values, depth (quick; thorough +1)
+    ("nd2-w2", "nd2", "f8", 2, 0, 0.6, [0, 1, 5], 9),
+    ("nd1-w2", "nd1", "f8", 2, 0.5, 0.3, [0, 1, 5], 9),
+    ("series-w3", "series", "f8", 3, 0.3, 0.6, [0, 1, 5], 9),
+    ("df-w2", "df", "f8", 2, 0.5, 0.6, [0, 1, 5], 8),
+    ("nd2-i8-w3", "nd2", "i8", 3, 0, 0.6, [0, 1, 5], 8),
+    ("nd2-w1", "nd2", "f8", 1, 0, 0.6, [0, 1, 5], 6),
+    ("nd2-w4", "nd2", "f8", 4, 0.25, 0.6, [0, 5], 11),
+    ("2d-nd2-w2", "nd2", "f8", 2, 0, 0.6, [[0, 0], [5, 0], [0, 5]], 8),
+    ("2d-nd1-w3", "nd1", "f8", 3, 0.3, 0.6, [[0, 0], [5, 1], [1, 5]], 8),
+    ("2d-series-w2", "series", "f8", 2, 0.5, 0.3, [[0, 0], [5, 0], [0, 5]], 8),
+    ("2d-df-w3", "df", "f8", 3, 0, 0.6, [[0, 0], [5, 1], [1, 5]], 8),
+]
+
+
+def _round4_tasks(tier):
+    """Round-4 family "the caller re-uses its containers": the harness keeps ONE container object per (role and)
+    shape, refills it in place and passes the same object in every call of the history; oracle unchanged (the model
+    sees the values).  Snapshots copy detector and containers together; paths are re-executed from scratch every 7th
+    leaf, so that an alias that a deepcopy snapshot would cut (a numpy view) sends the task to the explorer's
+    snapshot-free mode."""
+    d = 0 if tier == "quick" else 1
+    out = []
+    for cid, menu, kind, dtype, roles, alpha, ub, depth in REUSE_BATCH:
+        cfg = {"id": "r4b-reuse-" + cid, "menu": menu, "ub": ub, "alpha": alpha, "B": 10, "max_set_reference": 1,
+               "set_menu": [0, 2], "updates": [0, 1, 2, 3, 4], "reuse": kind, "reuse_dtype": dtype, "roles": roles}
+        big = menu.startswith("big")
+        firsts = [{"op": "update", "b": i} for i in cfg["updates"]] + [{"op": "set_reference", "b": i} for i in cfg["set_menu"]]
+        for f in firsts:
+            out.append({"system": "KdqTreeBatch", "cfg": cfg, "prefix": [f], "depth": depth + d - 1, "validate_every": 7,
+                        "label": "KdqTreeBatch|%s|%s%d" % (cfg["id"], f["op"][0], f["b"]),
+                        "cost": (4 if big else 1) * 7 ** (depth - 3)})
+    for cid, kind, dtype, w, p, alpha, values, depth in REUSE_STREAM:
+        cfg = {"id": "r4s-reuse-" + cid, "w": w, "persistence": p, "alpha": alpha, "B": 10, "ub": 1, "values": values,
+               "reuse": kind, "reuse_dtype": dtype}
+        if isinstance(values[0], list):
+            cfg["dim"] = len(values[0])
+        for first in values:
+            out.append({"system": "KdqTreeStreaming", "cfg": cfg, "prefix": [first], "depth": depth + d - 1,
+                        "validate_every": 7, "label": "KdqTreeStreaming|%s|%s" % (cfg["id"], first), "cost": 5})
+    return out
+
+
 def tasks(tier, seed):
-    out = _round3_tasks(tier)
+    out = _round3_tasks(tier) + _round4_tasks(tier)
     # batch: one task per (configuration, first event)
     for menu, ub, alpha, B, depth in _batch_cfgs(tier):
         cfg = {"id": "b-%s-ub%d-a%g-B%d" % (menu, ub, alpha, B), "menu": menu, "ub": ub, "alpha": alpha, "B": B,
